@@ -51,6 +51,7 @@ NoSession == [none |-> TRUE, user |-> FALSE, email |-> FALSE, pu |-> FALSE, at |
 SessionOf(src) ==
     CASE src = "cookie"        -> Sess(TRUE, TRUE, TRUE, TRUE, TRUE, <<"g1", "g2">>)     \* OIDC login, all fields
       [] src = "cookie_nogrp"  -> Sess(TRUE, TRUE, FALSE, TRUE, TRUE, <<>>)              \* user without groups / preferred_username
+      [] src = "cookie_minimal" -> Sess(TRUE, TRUE, TRUE, FALSE, FALSE, <<"g1", "g2">>)   \* --session-cookie-minimal: the cookie carries no tokens
       [] src = "cookie_emptygrp" -> Sess(TRUE, TRUE, TRUE, TRUE, TRUE, <<"g1", "g2">>)   \* the IdP lists the groups "", g1, g2: the empty one yields no value
       [] src = "bearer"        -> Sess(TRUE, TRUE, TRUE, TRUE, TRUE, <<"g1", "g2">>)     \* OIDC bearer token: at = it = the token
       [] src = "xbearer"       -> Sess(TRUE, TRUE, TRUE, TRUE, TRUE, <<"g1", "g2">>)     \* extra-issuer bearer token
@@ -58,7 +59,7 @@ SessionOf(src) ==
       [] src = "form"          -> Sess(TRUE, FALSE, FALSE, FALSE, FALSE, <<"hg1">>)      \* htpasswd via the sign-in form (cookie session)
       [] src = "cookie_bypass" -> Sess(TRUE, TRUE, TRUE, TRUE, TRUE, <<"g1", "g2">>)     \* valid cookie on a skip-auth route
       [] OTHER                 -> NoSession                                               \* "none_bypass": no credential, skip-auth route
-Sources == {"cookie", "cookie_nogrp", "cookie_emptygrp", "bearer", "xbearer", "basic", "form", "cookie_bypass", "none_bypass"}
+Sources == {"cookie", "cookie_nogrp", "cookie_emptygrp", "cookie_minimal", "bearer", "xbearer", "basic", "form", "cookie_bypass", "none_bypass"}
 \* the client's own Authorization header is the credential for these sources
 UsesAuthorization(src) == src \in {"bearer", "xbearer", "basic"}
 \* basic auth with prefer-email-to-user copies the user name into the e-mail field
@@ -105,7 +106,10 @@ InScope(c) ==
     /\ (c.source \in {"basic", "form"} => ~c.flags.pat /\ (Tier = "quick" => c.flags.puh))
     /\ (Tier = "quick" => /\ c.spoof \in {"absent", "lower", "repeated", "comma"}
                           /\ (c.endpoint = "upstream" /\ c.spoof \in {"lower", "comma"} => c.source \in {"cookie", "none_bypass", "basic"})
-                          /\ (c.source = "cookie_emptygrp" => c.spoof = "absent"))
+                          /\ (c.source = "cookie_emptygrp" => c.spoof = "absent")
+                          /\ (c.source = "cookie_minimal" => c.spoof = "absent" /\ c.store = "cookie"))
+    \* (validation refuses token-derived headers together with session-cookie-minimal)
+    /\ (c.source = "cookie_minimal" => c.store = "cookie" /\ ~c.flags.pat /\ ~c.flags.paz /\ ~c.flags.saz)
 
 \* ---- structured header lists (injectRequestHeaders / injectResponseHeaders) -------------------
 \* One configured header "X-Vp-Ident", written by the operator in some letter case, with preserveRequestValue on / off and one
